@@ -317,7 +317,14 @@ def r01_5(ctx) -> None:
                 n += 1
                 res = eng.flow.slice(fn, target, scope, [E], (("key", "b64"),))
                 unprot = [l for l in res.leaves if l.kind == "param" and any(st == ("key", "header") for st in l.path)]
-                # produce-side objects (HeaderMember(**member)) are not in a consume scope
+                if unprot and isinstance(node, ast.Compare):
+                    # a *rejection* of b64 in the unprotected header is exactly what the property asks for
+                    tn = cfg_of(fn).node_of(node)
+                    if tn is not None and tn.kind == "test":
+                        present = "true" if isinstance(node.ops[0], ast.In) else "false"
+                        if not can_reach_exit(cfg_of(fn), succ_by_label(cfg_of(fn), tn, present)):
+                            ctx.ok("R01.5", f"{E.short} -> {fn.short}:{norm(node)}", "unprotected b64 is refused (branch only raises)")
+                            continue
                 if unprot:
                     ctx.fail("R01.5", fn, node, "the unencoded-payload switch \"b64\" is read from a view that includes the "
                              "unprotected header (not integrity protected): " + ", ".join(sorted(repr(l) for l in unprot)[:3]),
@@ -508,12 +515,12 @@ def _ec_length_guard(ctx) -> None:
 def run(ctx) -> None:
     fam = verify_family(ctx.eng)
     ctx.extra["verify_family"] = [f.short for f in fam]
-    r01_1(ctx, fam)
-    r01_2(ctx, fam)
-    r01_3(ctx)
-    r01_4(ctx)
-    r01_5(ctx)
-    r01_6(ctx)
-    _ec_length_guard(ctx)
+    ctx.guard(r01_1, fam)
+    ctx.guard(r01_2, fam)
+    ctx.guard(r01_3)
+    ctx.guard(r01_4)
+    ctx.guard(r01_5)
+    ctx.guard(r01_6)
+    ctx.guard(_ec_length_guard)
     ctx.assume("pyca/cryptography verify primitives reject every forged signature (unforgeability is trusted)")
     ctx.assume("receiver types as inferred by mypy; class-hierarchy analysis for dynamic dispatch")
